@@ -89,6 +89,10 @@ class Check:
                 if not o['ok'] and m['ok']:
                     m.update(ok=False, where=o['where'], detail=o['detail'])
         obs = list(merged.values())
+        if os.environ.get('AMGCL_SA_LIST'):      # debugging aid: list the instances of one rule
+            for o in obs:
+                if o['rule'] == os.environ['AMGCL_SA_LIST']:
+                    print('  inst %s %s @ %s' % ('ok ' if o['ok'] else 'BAD', o['key'], o['where']))
         for r, fl in self.floors.items():
             n = sum(1 for o in obs if o['rule'] == r)
             if n < fl:
